@@ -21,9 +21,10 @@ from .. import gen_store, ser, ser_store
 PROP = "C14"
 THEOREMS = ["C14_build_closed", "C14_heal_closed", "C14_replace_closed", "C14_clone_disjoint",
             "C14_source_untouched", "C14_in_place_frame", "C14_visibility_partial", "C14_preserved_partial",
-            "C14_heal_terminates"]
+            "C14_heal_terminates", "C14_source_untouched_observe", "C14_extend_closed",
+            "C14_extend_source_untouched", "C14_extend_preserved", "C14_visibility_types"]
 AXIOMS_OK = []
-RUN_MODULE = "Run.C14run Schema.StoreModel"
+RUN_MODULE = "Run.C14run Schema.StoreModel Schema.StoreExtend"
 AGREE = "agree_C14"
 CASE_TYPE = "case_C14"
 SHARD = 8
@@ -31,8 +32,8 @@ LEVEL_NOTE = ("Theorems are about the Gallina object-heap model Schema/StoreMode
               "_build_type_map/clone/_replace_types_and_directives, SchemaVisitor, _HealSchemaVisitor, "
               "VisibilitySchemaTransform, CamelCaseSchemaTransform and the schema-directive driver (after "
               "fixes C14-01..03); the model is tied to /repo by running both on the same generated histories "
-              "on every run. extend_schema is covered by the correspondence's direct checks only (its "
-              "results enter the model as imported heaps).")
+              "on every run. extend_schema is modelled too (Schema/StoreExtend.v, strict mode; its final "
+              "validate() is not).")
 RULE = ("histories of 1-6 operations (clone / transform_schema with visibility predicates (deny-lists and allow-lists over all type names incl. specified scalars and introspection types) over types, fields, "
         "input fields, arguments, enum values, directives / camel-casing / apply_schema_directives with "
         "@rename and @remove / extend_schema with generated documents / _replace_types_and_directives with "
@@ -305,7 +306,11 @@ def apply_step(step, target):
             r = apply_schema_directives(s, [Rename, Remove])
             return "ok", (None if inplace else r), None
         if op == "extend":
-            return "ok", extend_schema(target, step["doc"]), None
+            try:
+                return "ok", extend_schema(target, step["doc"]), None
+            except SchemaError as e:
+                # Schema(...) / validate() refused the extended schema: not predicted by the model
+                return "invalid", None, "SchemaError: %s" % str(e)[:200]
         if op == "replace":
             c = target.clone()
             mapping = {}
@@ -537,10 +542,6 @@ def run_impl(case):
         so["status"], so["err"] = status, err
         keep = res if status == "ok" else None
         schemas.append(keep)
-        if step["op"] == "extend" and res is not None:
-            h = ser_store.Heap(1000000 * (i + 1))
-            rec = h.add_schema(res)
-            so["import"] = {"objs": h.objs, "schema": rec}
         # observe: source, target, result (also of a transform refused by validate())
         idxs = [0] + ([on] if on != 0 else [])
         for k in idxs:
@@ -789,10 +790,7 @@ def c_step(step, so):
     if op == "sdir":
         return "(SSdir %d %s)" % (on, inpl)
     if op == "extend":
-        if so["import"] is None:
-            return "(SImport %d None)" % on
-        return "(SImport %d (Some (%s,\n %s)))" % (on, ser_store.c_heap(so["import"]["objs"]),
-                                                  ser_store.c_schema(so["import"]["schema"]))
+        return "(SExtend %d %s)" % (on, ser_store.c_extdoc(step["doc"]))
     if op == "swap":
         return "(SSwap %d %s)" % (on, ser.clist(step["names"], ser.cstr))
     if op == "replace":
@@ -861,6 +859,14 @@ def corpus():
     out.append(_case(W32, [{"op": "extend", "on": 0, "doc": "extend type Bar { z: Int }"},
                            {"op": "camel", "on": 1}, {"op": "extend", "on": 2, "doc": "extend enum E { C }"}],
                      decor_seed=4))
+    # extension documents: a repeated definition replaces the first one (dict semantics of
+    # _collect_extensions); new input type + directive + object type + schema extension
+    out.append(_case(W32, [{"op": "extend", "on": 0, "doc":
+                            "input NewIn { a_b: Int = 2, c: String }\ndirective @added(x: NewIn, y_z: Int) on FIELD\n"
+                            "input NewIn { a_b: Int = 2, c: In2 }\ndirective @added(x: NewIn) on QUERY\n"
+                            "type NewMut { do_it(v: Int = 1): Foo }\nextend schema { mutation: NewMut }\n"
+                            "extend union U = Orphan\nextend enum E { \"added\" C @deprecated }"},
+                           {"op": "camel", "on": 1}, {"op": "clone", "on": 0}], decor_seed=5))
     # visibility: hiding a type drops fields, arguments, input fields, members referring to it
     out.append(_case(W32, [dict(_NOVIS, op="vis", on=0, types=["In2", "Bar"]),
                            dict(_NOVIS, op="vis", on=1, types=["E"], inplace=True),
@@ -880,7 +886,7 @@ def corpus():
 
 
 def generate(rng, tier):
-    n = 75 if tier == "quick" else 650
+    n = 75 if tier == "quick" else 900
     cases = []
     for _ in range(n):
         sdl = gen_store.gen_schema_sdl(rng)
